@@ -7,8 +7,10 @@ package xsimrt
 
 import (
 	"fmt"
+	"reflect"
 	"sort"
 	"sync"
+	"unsafe"
 )
 
 // Hook is called before every instrumented statement. Set once by the
@@ -91,9 +93,22 @@ func MapKeysAny[M ~map[K]V, K comparable, V any](m M) []K {
 // simulator only.
 var ForceSwitch func()
 
+// switchNow hands the baton over through whatever scheduler owns the process
+// NOW: a goroutine of the code under test can outlive the Sim that was running
+// when it started to wait, so the variable is read at every attempt.
+//
+//go:noinline
+func switchNow() {
+	if f := ForceSwitch; f != nil {
+		f()
+	}
+}
+
 // LockVia replaces x.Lock() / x.RLock(): under the simulator a task must never
 // block on a real mutex while holding the baton (the holder may be parked), so
 // it spins on TryLock and hands the baton over between attempts.
+//
+//go:noinline
 func LockVia(try func() bool, lock func()) {
 	fs := ForceSwitch
 	if fs == nil {
@@ -101,7 +116,7 @@ func LockVia(try func() bool, lock func()) {
 		return
 	}
 	for !try() {
-		fs()
+		switchNow()
 	}
 }
 
@@ -120,10 +135,14 @@ type onceEntry struct {
 var onceTab []onceEntry
 
 // ResetOnceTable forgets all sync.Once instances seen so far (between runs).
+//
+//go:noinline
 func ResetOnceTable() { onceTab = onceTab[:0] }
 
 // OnceDo replaces o.Do(f). Under the simulator exactly one running task touches
 // onceTab at a time (tasks are run one at a time), so no lock is needed.
+//
+//go:noinline
 func OnceDo(o *sync.Once, f func()) {
 	fs := ForceSwitch
 	if fs == nil {
@@ -158,6 +177,511 @@ func OnceDo(o *sync.Once, f func()) {
 			o.Do(f)
 			return
 		}
-		fs()
+		switchNow()
 	}
+}
+
+// --- goroutines started inside the code under test --------------------------
+//
+// `go f(x)` is rewritten to xsimrt__.Go(func() { f(x) }) (arguments hoisted so
+// that they are still evaluated by the parent). Under the simulator the new
+// goroutine becomes one more task of the seeded scheduler; without it Go is the
+// go statement.
+
+// GoHook is set by the simulator (sim and controlled race lanes, always).
+var GoHook func(body func())
+
+// PreMain is true until the harness has decided how goroutines are run; bodies
+// started before that (package initialisers of the code under test) are queued
+// in Pending and handed over by the harness.
+var (
+	PreMain = true
+	Pending []func()
+)
+
+//go:noinline
+func Go(body func()) {
+	if h := GoHook; h != nil {
+		h(body)
+		return
+	}
+	if PreMain {
+		Pending = append(Pending, body)
+		return
+	}
+	go body()
+}
+
+// sync.WaitGroup: the counter is mirrored in a side table so that Wait can
+// poll it (and hand the baton over) instead of blocking the only running task.
+// The real methods are always called as well: they carry the happens-before
+// edges the race detector must see.
+type wgEntry struct {
+	wg   *sync.WaitGroup
+	n    int
+	perm bool
+}
+
+var wgTab []*wgEntry
+
+//go:noinline
+func ResetWGTable() {
+	keep := wgTab[:0]
+	for _, e := range wgTab {
+		if e.perm {
+			keep = append(keep, e)
+		}
+	}
+	wgTab = keep
+}
+
+//go:noinline
+func wgFind(wg *sync.WaitGroup) *wgEntry {
+	for _, e := range wgTab {
+		if e.wg == wg {
+			return e
+		}
+	}
+	e := &wgEntry{wg: wg, perm: PreMain}
+	wgTab = append(wgTab, e)
+	return e
+}
+
+//go:noinline
+func WGAdd(wg *sync.WaitGroup, n int) {
+	if ForceSwitch != nil || PreMain {
+		wgFind(wg).n += n
+	}
+	wg.Add(n)
+}
+
+//go:noinline
+func WGDone(wg *sync.WaitGroup) {
+	if ForceSwitch != nil || PreMain {
+		wgFind(wg).n--
+	}
+	wg.Done()
+}
+
+//go:noinline
+func WGWait(wg *sync.WaitGroup) {
+	if fs := ForceSwitch; fs != nil {
+		e := wgFind(wg)
+		for e.n > 0 {
+			switchNow()
+		}
+	}
+	wg.Wait()
+}
+
+// --- channels ----------------------------------------------------------------
+//
+// Under the simulator exactly one task runs at a time, so a task must never
+// block in a real channel operation while it holds the baton. Channels made by
+// the code under test (`make(chan T, n)` is wrapped in MakeChan) are therefore
+// emulated in a side table with the semantics of the Go runtime (buffer,
+// rendezvous through wait queues, close, select picking among ready cases);
+// blocking means handing the baton over until another task completes the
+// operation. Channels that were not made by instrumented code (time.After, a
+// context) are polled for real. Without the simulator every function below is
+// the plain Go operation.
+
+// Choice picks one of n alternatives (select with several ready cases). Set by
+// the simulator; nil = the first one.
+var Choice func(n int) int
+
+// ForeignWaits counts polls of channels the simulator does not own.
+var ForeignWaits int64
+
+type waiter struct {
+	fired int // -1 while blocked; index of the completed case afterwards
+	v     interface{}
+	ok    bool
+	panic string
+}
+
+type sudog struct {
+	w   *waiter
+	idx int
+	v   interface{} // value to send
+}
+
+type chanState struct {
+	key    unsafe.Pointer
+	capa   int
+	buf    []interface{}
+	closed bool
+	perm   bool // made by a package initialiser: lives as long as the process
+	sendq  []*sudog
+	recvq  []*sudog
+	mu     sync.Mutex // never contended: Lock/Unlock are the edges the race detector sees
+}
+
+var chanTab []*chanState
+
+//go:noinline
+func ResetChanTable() {
+	keep := chanTab[:0]
+	for _, c := range chanTab {
+		if c.perm {
+			keep = append(keep, c)
+		}
+	}
+	chanTab = keep
+}
+
+//go:noinline
+func chanKey(c interface{}) unsafe.Pointer {
+	rv := reflect.ValueOf(c)
+	if rv.Kind() != reflect.Chan || rv.IsNil() {
+		return nil
+	}
+	return rv.UnsafePointer()
+}
+
+//go:noinline
+func chanFind(k unsafe.Pointer) *chanState {
+	if k == nil {
+		return nil
+	}
+	for _, c := range chanTab {
+		if c.key == k {
+			return c
+		}
+	}
+	return nil
+}
+
+func (c *chanState) edge() { c.mu.Lock(); c.mu.Unlock() }
+
+// The generic functions below are compiled inside the (possibly
+// race-instrumented) package that instantiates them, like inlined code: they
+// must not touch the tables themselves, only call the non-generic helpers.
+
+//go:noinline
+func simOff() bool { return ForceSwitch == nil }
+
+//go:noinline
+func regChan(rv reflect.Value) {
+	// (package initialisers run before the harness has chosen the lane: register)
+	if ForceSwitch == nil && !PreMain {
+		return
+	}
+	chanTab = append(chanTab, &chanState{key: rv.UnsafePointer(), capa: rv.Cap(), perm: PreMain})
+}
+
+// MakeChan wraps make(chan T, n) in instrumented code.
+func MakeChan[C any](c C) C {
+	regChan(reflect.ValueOf(c))
+	return c
+}
+
+func firstLive(q *[]*sudog) *sudog {
+	for len(*q) > 0 {
+		sg := (*q)[0]
+		*q = (*q)[1:]
+		if sg.w.fired == -1 {
+			return sg
+		}
+	}
+	return nil
+}
+
+func (c *chanState) trySend(v interface{}) bool {
+	if c.closed {
+		panic("send on closed channel")
+	}
+	if sg := firstLive(&c.recvq); sg != nil {
+		sg.w.fired, sg.w.v, sg.w.ok = sg.idx, v, true
+		return true
+	}
+	if len(c.buf) < c.capa {
+		c.buf = append(c.buf, v)
+		return true
+	}
+	return false
+}
+
+func (c *chanState) tryRecv() (v interface{}, ok, ready bool) {
+	if len(c.buf) > 0 {
+		v = c.buf[0]
+		c.buf = c.buf[1:]
+		if sg := firstLive(&c.sendq); sg != nil {
+			c.buf = append(c.buf, sg.v)
+			sg.w.fired = sg.idx
+		}
+		return v, true, true
+	}
+	if sg := firstLive(&c.sendq); sg != nil {
+		sg.w.fired = sg.idx
+		return sg.v, true, true
+	}
+	if c.closed {
+		return nil, false, true
+	}
+	return nil, false, false
+}
+
+// SelCase is one communication of a select (or of a single send / receive).
+type SelCase struct {
+	c    *chanState
+	rv   reflect.Value // the real channel
+	send bool
+	v    interface{}
+}
+
+// SelResult is what Select reports: index of the chosen case (-1 = default),
+// the value received and the comma-ok result of a receive.
+type SelResult struct {
+	I  int
+	V  interface{}
+	OK bool
+}
+
+//go:noinline
+func mkCase(rv reflect.Value, send bool, v interface{}) SelCase {
+	k := SelCase{rv: rv, send: send, v: v}
+	if rv.IsValid() && !rv.IsNil() {
+		k.c = chanFind(rv.UnsafePointer())
+	}
+	return k
+}
+
+func RecvCase[T any](ch <-chan T) SelCase { return mkCase(reflect.ValueOf(ch), false, nil) }
+
+func SendCase[T any](ch chan<- T, v T) SelCase { return mkCase(reflect.ValueOf(ch), true, v) }
+
+// As converts the value of a receive case back to the element type of ch.
+func As[T any](ch <-chan T, v interface{}) T {
+	if v == nil {
+		var z T
+		return z
+	}
+	return v.(T)
+}
+
+func (k *SelCase) nilChan() bool { return !k.rv.IsValid() || k.rv.IsNil() }
+
+// try completes case k if that is possible right now.
+func (k *SelCase) try() (r SelResult, done bool) {
+	if k.nilChan() {
+		return r, false
+	}
+	if k.c == nil {
+		// a channel the simulator does not own: poll the real one
+		ForeignWaits++
+		rc := reflect.SelectCase{Dir: reflect.SelectRecv, Chan: k.rv}
+		if k.send {
+			rc.Dir = reflect.SelectSend
+			rc.Send = reflect.ValueOf(k.v)
+			if !rc.Send.IsValid() {
+				rc.Send = reflect.Zero(k.rv.Type().Elem())
+			}
+		}
+		i, v, ok := reflect.Select([]reflect.SelectCase{rc, {Dir: reflect.SelectDefault}})
+		if i != 0 {
+			return r, false
+		}
+		if !k.send && ok {
+			r.V = v.Interface()
+		}
+		r.OK = ok
+		return r, true
+	}
+	k.c.edge()
+	if k.send {
+		return r, k.c.trySend(k.v)
+	}
+	v, ok, ready := k.c.tryRecv()
+	return SelResult{V: v, OK: ok}, ready
+}
+
+// Select is the select statement (hasDefault = it has a default clause), and,
+// with one case and no default, the plain send or receive.
+//
+//go:noinline
+func Select(hasDefault bool, cases ...SelCase) SelResult {
+	fs := ForceSwitch
+	if fs == nil {
+		return realSelect(hasDefault, cases)
+	}
+	n := len(cases)
+	start := 0
+	if ch := Choice; ch != nil && n > 1 {
+		start = ch(n)
+	}
+	for j := 0; j < n; j++ {
+		i := (start + j) % n
+		if r, done := cases[i].try(); done {
+			r.I = i
+			return r
+		}
+	}
+	if hasDefault {
+		return SelResult{I: -1}
+	}
+	// block: queue on every owned channel, then hand the baton over until some
+	// other task completes one of the cases (foreign channels are polled)
+	w := &waiter{fired: -1}
+	foreign := false
+	for i := range cases {
+		k := &cases[i]
+		if k.nilChan() {
+			continue
+		}
+		if k.c == nil {
+			foreign = true
+			continue
+		}
+		sg := &sudog{w: w, idx: i, v: k.v}
+		if k.send {
+			k.c.sendq = append(k.c.sendq, sg)
+		} else {
+			k.c.recvq = append(k.c.recvq, sg)
+		}
+	}
+	defer func() {
+		if w.fired == -1 {
+			w.fired = -3 // unwound while blocked (the run was stopped): nobody waits any more
+		}
+	}()
+	for w.fired == -1 {
+		switchNow()
+		if w.fired != -1 {
+			break
+		}
+		if foreign {
+			for i := range cases {
+				if k := &cases[i]; k.c == nil && !k.nilChan() {
+					if r, done := k.try(); done {
+						w.fired = -2 // owned queues: this waiter is gone
+						r.I = i
+						return r
+					}
+				}
+			}
+		}
+	}
+	if w.panic != "" {
+		panic(w.panic)
+	}
+	if k := &cases[w.fired]; k.c != nil {
+		k.c.edge()
+	}
+	return SelResult{I: w.fired, V: w.v, OK: w.ok}
+}
+
+//go:noinline
+func realSelect(hasDefault bool, cases []SelCase) SelResult {
+	rcs := make([]reflect.SelectCase, 0, len(cases)+1)
+	for _, k := range cases {
+		rc := reflect.SelectCase{Dir: reflect.SelectRecv, Chan: k.rv}
+		if k.send {
+			rc.Dir = reflect.SelectSend
+			rc.Send = reflect.ValueOf(k.v)
+			if !rc.Send.IsValid() && k.rv.IsValid() {
+				rc.Send = reflect.Zero(k.rv.Type().Elem())
+			}
+		}
+		if !k.rv.IsValid() {
+			rc.Chan = reflect.Value{}
+			rc.Send = reflect.Value{}
+		}
+		rcs = append(rcs, rc)
+	}
+	if hasDefault {
+		rcs = append(rcs, reflect.SelectCase{Dir: reflect.SelectDefault})
+	}
+	i, v, ok := reflect.Select(rcs)
+	if hasDefault && i == len(cases) {
+		return SelResult{I: -1}
+	}
+	r := SelResult{I: i, OK: ok}
+	if !cases[i].send && ok {
+		r.V = v.Interface()
+	}
+	return r
+}
+
+func Send[T any](ch chan<- T, v T) {
+	if simOff() {
+		ch <- v
+		return
+	}
+	Select(false, SendCase(ch, v))
+}
+
+func Recv[T any](ch <-chan T) T {
+	if simOff() {
+		return <-ch
+	}
+	return As(ch, Select(false, RecvCase(ch)).V)
+}
+
+func Recv2[T any](ch <-chan T) (T, bool) {
+	if simOff() {
+		v, ok := <-ch
+		return v, ok
+	}
+	r := Select(false, RecvCase(ch))
+	return As(ch, r.V), r.OK
+}
+
+// closeSim closes an emulated channel; false = not emulated, close the real one.
+//
+//go:noinline
+func closeSim(rv reflect.Value) bool {
+	if ForceSwitch == nil || !rv.IsValid() || rv.IsNil() {
+		return false
+	}
+	c := chanFind(rv.UnsafePointer())
+	if c == nil {
+		return false
+	}
+	c.edge()
+	if c.closed {
+		panic("close of closed channel")
+	}
+	c.closed = true
+	for {
+		sg := firstLive(&c.recvq)
+		if sg == nil {
+			break
+		}
+		sg.w.fired, sg.w.v, sg.w.ok = sg.idx, nil, false
+	}
+	for {
+		sg := firstLive(&c.sendq)
+		if sg == nil {
+			break
+		}
+		sg.w.fired, sg.w.panic = sg.idx, "send on closed channel"
+	}
+	return true
+}
+
+// Close is close(ch).
+func Close[T any](ch chan<- T) {
+	if !closeSim(reflect.ValueOf(ch)) {
+		close(ch)
+	}
+}
+
+//go:noinline
+func lenSim(rv reflect.Value) (int, bool) {
+	if ForceSwitch == nil || !rv.IsValid() || rv.IsNil() {
+		return 0, false
+	}
+	if c := chanFind(rv.UnsafePointer()); c != nil {
+		return len(c.buf), true
+	}
+	return 0, false
+}
+
+// ChanLen is len(ch).
+func ChanLen[T any](ch <-chan T) int {
+	if n, ok := lenSim(reflect.ValueOf(ch)); ok {
+		return n
+	}
+	return len(ch)
 }
